@@ -1253,7 +1253,7 @@ Definition finished (stack : list Z) := St [0] true 0 (d_of stack) [] [].  (* in
 (* ---- 10 0 do i loop *)
 Definition p_do := mkProg 64 [[0; 10; 0; 0; 5; 67]; [29]] [] [] [] [] 64 16.
 
-Example ex_do_loop :
+Example ex_do_loop_proof :
   compile 64 64 16 (bytes "10 0 do i loop"%string) = COk p_do /\
   api_begin p_do (mkEnv []) (init_machine p_do) = Ok begun /\
   ends p_do (mkEnv []) 0 begun (Ok (finished [9; 8; 7; 6; 5; 4; 3; 2; 1; 0])) /\
@@ -1288,7 +1288,7 @@ Definition B_until (d : data) : data :=
   | [] => d
   end.
 
-Example ex_begin_until :
+Example ex_begin_until_proof :
   compile 64 64 16 (bytes "0 begin 1+ dup 5 = until"%string) = COk p_until /\
   ends p_until (mkEnv []) 0 begun (Ok (finished [5])) /\
   api_run 100 true p_until (mkEnv []) (init_machine p_until) = Ok (St [] true 0 (d_of [5]) [] []).
@@ -1319,7 +1319,7 @@ Definition Pre_while (d : data) : data :=
 Definition Post_while (d : data) : data :=
   match d_stack d with a :: s => with_stack d (wrap 64 (a + 1) :: s) | [] => d end.
 
-Example ex_begin_while_repeat :
+Example ex_begin_while_repeat_proof :
   compile 64 64 16 (bytes "0 begin dup 5 < while 1+ repeat"%string) = COk p_while /\
   ends p_while (mkEnv []) 0 begun (Ok (finished [5])) /\
   api_run 100 true p_while (mkEnv []) (init_machine p_while) = Ok (St [] true 0 (d_of [5]) [] []).
@@ -1350,7 +1350,7 @@ Definition p_ploop := mkProg 64 [[0; 10; 0; 0; 6; 67]; [29; 0; 3]] [] [] [] [] 6
 
 Definition B_ploop (i : Z) (d : data) : data := with_stack d (wrap 64 3 :: wrap 64 i :: d_stack d).
 
-Example ex_plus_loop :
+Example ex_plus_loop_proof :
   compile 64 64 16 (bytes "10 0 do i 3 +loop"%string) = COk p_ploop /\
   ends p_ploop (mkEnv []) 0 begun (Ok (finished [9; 6; 3; 0])) /\
   api_run 100 true p_ploop (mkEnv []) (init_machine p_ploop) = Ok (St [] true 0 (d_of [9; 6; 3; 0]) [] []).
@@ -1377,7 +1377,7 @@ Qed.
 Definition p_ifelse := mkProg 64 [[4; 67; 68]; [0; 10]; [0; 20]] [] [] [] [] 64 16.
 Definition p_ifthen := mkProg 64 [[3; 67]; [0; 10]] [] [] [] [] 64 16.
 
-Example ex_if_else_then : forall v s, zlen s < 64 ->
+Example ex_if_else_then_proof : forall v s, zlen s < 64 ->
   compile 64 64 16 (bytes "if 10 else 20 then"%string) = COk p_ifelse /\
   ends p_ifelse (mkEnv []) 0 (St [0] true 0 (d_of (v :: s)) [(0, 0)] [])
        (Ok (finished ((if v =? 0 then 20 else 10) :: s))).
@@ -1392,7 +1392,7 @@ Proof.
   - apply run_end; side.
 Qed.
 
-Example ex_if_then : forall v s, zlen s < 64 ->
+Example ex_if_then_proof : forall v s, zlen s < 64 ->
   compile 64 64 16 (bytes "if 10 then"%string) = COk p_ifthen /\
   ends p_ifthen (mkEnv []) 0 (St [0] true 0 (d_of (v :: s)) [(0, 0)] [])
        (Ok (finished (if v =? 0 then s else 10 :: s))).
@@ -1408,7 +1408,7 @@ Proof.
 Qed.
 
 (* empty stack: stack underflow; at the recursion limit: recursion depth exceeded *)
-Example ex_if_errors :
+Example ex_if_errors_proof :
   ends p_ifthen (mkEnv []) 0 (St [0] true 0 (d_of []) [(0, 0)] []) (Ok (St [0] true E_underflow (d_of []) [(0, 1)] [])) /\
   api_run 100 true p_ifthen (mkEnv []) (init_machine p_ifthen) = Ok (St [0] true E_underflow (d_of []) [(0, 1)] []) /\
   let p1 := mkProg 64 [[0; 1; 3; 67]; [0; 10]] [] [] [] [] 64 1 in
@@ -1430,7 +1430,7 @@ Definition p_again :=
 Definition B_again (d : data) : data :=
   match d_stack d with a :: s => with_stack d (wrap 64 (a + 1) :: s) | [] => d end.
 
-Example ex_begin_again_exit :
+Example ex_begin_again_exit_proof :
   compile 64 64 16 (bytes ": f 0 begin 1+ dup 5 = if exit then again ; f 100"%string) = COk p_again /\
   ends p_again (mkEnv []) 0 begun (Ok (finished [100; 5])) /\
   api_run 100 true p_again (mkEnv []) (init_machine p_again) = Ok (St [] true 0 (d_of [100; 5]) [] []).
@@ -1473,7 +1473,7 @@ Definition p_nested := mkProg 64 [[0; 2; 0; 0; 5; 67]; [0; 3; 0; 0; 5; 68]; [29;
 Definition B_in (j i : Z) (d : data) : data := with_stack d (wrap 64 (wrap 64 i + wrap 64 j) :: d_stack d).
 Definition B_out (j : Z) (d : data) : data := iter_from (B_in j) 0 3 d.
 
-Example ex_nested_do_loops :
+Example ex_nested_do_loops_proof :
   compile 64 64 16 (bytes "2 0 do 3 0 do i j + loop loop"%string) = COk p_nested /\
   ends p_nested (mkEnv []) 0 begun (Ok (finished [3; 2; 1; 2; 1; 0])) /\
   api_run 100 true p_nested (mkEnv []) (init_machine p_nested) = Ok (St [] true 0 (d_of [3; 2; 1; 2; 1; 0]) [] []).
@@ -1511,7 +1511,7 @@ Qed.
 (* ---- i j k on a do-stack with three entries (n = 0, 1, 2 selects the innermost, second, third counter) *)
 Definition p_ijk := mkProg 64 [[29; 30; 31]] [] [] [] [] 64 16.
 
-Example ex_i_j_k : forall a b c s, zlen s < 60 ->
+Example ex_i_j_k_proof : forall a b c s, zlen s < 60 ->
   goes p_ijk (mkEnv []) 0 (St [0] true 0 (d_of s) [(0, 0); (9, 9)] [(5, 100, a); (4, 100, b); (3, 100, c)])
        (St [0] true 0 (d_of (wrap 64 c :: wrap 64 b :: wrap 64 a :: s)) [(0, 3); (9, 9)] [(5, 100, a); (4, 100, b); (3, 100, c)]).
 Proof.
@@ -1528,7 +1528,7 @@ Qed.
    pass, whatever the sign of the step: with start >= stop the body never runs. *)
 Definition p_negstep := mkProg 64 [[0; 0; 0; 10; 6; 67]; [29; 0; -1]] [] [] [] [] 64 16.
 
-Example plus_loop_negative_step_refuted :
+Example plus_loop_negative_step_refuted_proof :
   compile 64 64 16 (bytes "0 10 do i -1 +loop"%string) = COk p_negstep /\
   ends p_negstep (mkEnv []) 0 begun (Ok (finished [])) /\
   (exists mf, api_run 100 true p_negstep (mkEnv []) (init_machine p_negstep) = Ok mf /\ m_err mf = E_none /\
@@ -1545,7 +1545,7 @@ Qed.
 
 (* (2) a negative step from start < stop counts downwards, away from the limit: the loop only ends through an error
    (here stack overflow after 8 passes) or when the index wraps around at -2^63 *)
-Example plus_loop_negative_step_runs_away :
+Example plus_loop_negative_step_runs_away_proof :
   let p := mkProg 64 [[0; 10; 0; 0; 6; 67]; [29; 0; -1]] [] [] [] [] 8 16 in
   compile 64 8 16 (bytes "10 0 do i -1 +loop"%string) = COk p /\
   exists mf, api_run 1000 true p (mkEnv []) (init_machine p) = Ok mf /\ m_err mf = E_overflow /\
@@ -1553,7 +1553,7 @@ Example plus_loop_negative_step_runs_away :
 Proof. cbv zeta. split; [vm_compute; reflexivity|]. eexists. split; [vm_compute; reflexivity|]. repeat split. Qed.
 
 (* (3) `do` behaves like Forth's `?do`: with start = stop the body is skipped (Forth-2012 `do` would run 2^64 passes) *)
-Example do_loop_empty_range :
+Example do_loop_empty_range_proof :
   let p := mkProg 64 [[0; 5; 0; 5; 5; 67]; [29]] [] [] [] [] 64 16 in
   compile 64 64 16 (bytes "5 5 do i loop"%string) = COk p /\
   ends p (mkEnv []) 0 begun (Ok (finished [])) /\
@@ -1568,7 +1568,7 @@ Proof.
 Qed.
 
 (* errors of `do`: too few cells, do-stack full *)
-Example ex_do_errors :
+Example ex_do_errors_proof :
   let p := mkProg 64 [[0; 1; 5; 67]; [29]] [] [] [] [] 64 16 in
   compile 64 64 16 (bytes "1 do i loop"%string) = COk p /\
   ends p (mkEnv []) 0 (St [0] true 0 (d_of [1]) [(0, 2)] []) (Ok (St [0] true E_underflow (d_of [1]) [(0, 3)] [])) /\
@@ -1580,5 +1580,5 @@ Proof.
   cbv zeta. split; [vm_compute; reflexivity|].
   split; [apply (do_underflow_proof _ (mkEnv []) 0 [0] true 0 false); side|].
   split; [vm_compute; reflexivity|].
-  apply (do_recursion_limit_proof _ (mkEnv []) 0 [0] true 0 false 1 4 [(0, 5)] [(1, 2, 0)] _ 0 2 []); side.
+  apply (do_recursion_limit_proof _ (mkEnv []) 0 [0] true 0 false 1 4 [(0, 5)] [(1, 2, 0)] (d_of [0; 2]) 0 2 []); side.
 Qed.
